@@ -91,9 +91,10 @@ def fn_attr_targets(prog, mod, cls):
         if cls.name in names:
             v = pf.class_attrs(c).get("_fn")
             if v is not None:
-                if not (isinstance(v, ast.Attribute) and isinstance(v.value, ast.Name)):
-                    raise core.AnalysisError("%s._fn is not `<lib>.<function>`" % c.name)
-                out[c.name] = v.attr
+                nm = er.native_name(v)
+                if nm is None:
+                    raise core.AnalysisError("%s._fn is not `<lib>.<function>` / getattr(<lib>, \"<function>\")" % c.name)
+                out[c.name] = nm
     return out
 
 
@@ -133,8 +134,31 @@ def rule_accumulate(chk, prog, tree):
                     for cname, cfn in fn_attr_targets(prog, mod, cls).items():
                         c_jobs.setdefault(cfn, {})[i] = (b, cname)
             else:
-                raise core.AnalysisError("%s passes the shared buffer(s) %s to `%s`, whose writes are not "
-                                         "analysed" % (where, sorted(passed), s))
+                callee = None
+                if isinstance(f, ast.Attribute) and isinstance(f.value, ast.Name) and f.value.id in ("self", "cls"):
+                    r = prog.find_method(mod, cls, f.attr)
+                    callee, skip = (r[2], True) if r else (None, True)
+                elif isinstance(f, ast.Name) and f.id in mod.functions:
+                    callee, skip = mod.functions[f.id], False
+                if callee is None or callee is fn:
+                    raise core.AnalysisError("%s passes the shared buffer(s) %s to `%s`, whose writes are not "
+                                             "analysed" % (where, sorted(passed), s))
+                bound = er._bind_call(callee, call, skip)
+                inv = {a_.id: p_ for p_, a_ in bound.items() if isinstance(a_, ast.Name) and a_.id in bufs}
+                cb, cadds, cdele = er.accumulate_facts(callee, sorted(inv.values()))
+                if cdele:
+                    raise core.AnalysisError("%s: helper `%s` hands the shared buffers on again; only one level of "
+                                             "helper extraction is followed" % (where, callee.name))
+                back = {p_: b_ for b_, p_ in inv.items()}
+                for st, pb, why in cb:
+                    bad.append((st, back[pb], "%s (in helper %s)" % (why, callee.name)))
+                    chk.violation("accumulate-py", mod.rel, where, pf.src(st), st.lineno,
+                                  "%s (in helper %s); MappedDFTKernel*.__call__ passes the same f/df arrays to every "
+                                  "evaluator of the list" % (why, callee.name), instance="%s %s" % (where, back[pb]))
+                for pb, lst in cadds.items():
+                    if lst:
+                        delegated[back[pb]].append("helper %s (+= inside)" % callee.name)
+                        adds[back[pb]].extend(lst)
         for b in bufs:
             inst = "%s buffer %s" % (where, b)
             if any(x[1] == b for x in bad):
@@ -142,10 +166,16 @@ def rule_accumulate(chk, prog, tree):
             if adds[b] or delegated[b]:
                 chk.ok("accumulate-py", inst, detail="%d accumulating store(s), delegates: %s" % (
                     len(adds[b]), delegated[b]))
-            else:
+            elif b == bufs[1] and any(er.value_depends(fn, st.value, a[1]) for st in adds[bufs[0]]):
+                # the value added to res depends on the contents of X1, so its X1-derivative cannot be
+                # identically absent; an evaluator of a constant legitimately leaves dres alone
+                dep = next(st for st in adds[bufs[0]] if er.value_depends(fn, st.value, a[1]))
                 chk.violation("accumulate-py", mod.rel, where, "buffer %s" % b, fn.lineno,
-                              "the evaluator never adds its contribution to `%s` (no += store, no delegate)" % b,
-                              instance=inst)
+                              "`%s` adds a value that depends on `%s` to `%s`, but nothing is ever added to the "
+                              "derivative buffer `%s` (no += store, no delegate)" % (
+                                  pf.src(dep), a[1], bufs[0], b), instance=inst)
+            else:
+                chk.ok("accumulate-py", inst + " (no contribution to this buffer)", nontrivial=False)
     # language boundary
     if not c_jobs:
         raise core.AnalysisError("no evaluator hands its buffers to a native `_fn`")
@@ -191,40 +221,50 @@ def _mentions_attr_of(test, name, attr):
     return False
 
 
+def _contig_in(expr):
+    """names X for which `expr` (an asserted expression) states X.flags.c_contiguous / X.flags['C_CONTIGUOUS']"""
+    out = set()
+    if isinstance(expr, tuple):  # ('not', e): nothing positive is asserted
+        return out
+    for n in ast.walk(expr):
+        if isinstance(n, ast.UnaryOp) and isinstance(n.op, ast.Not):
+            return set()  # a negated sub-term: do not try to be clever
+    for n in ast.walk(expr):
+        if isinstance(n, ast.Attribute) and n.attr in ("c_contiguous", "contiguous") \
+                and isinstance(n.value, ast.Attribute) and n.value.attr == "flags":
+            b = pf.base_name(n.value.value)
+            if b:
+                out.add(b)
+        if isinstance(n, ast.Subscript) and isinstance(n.value, ast.Attribute) and n.value.attr == "flags" \
+                and isinstance(n.slice, ast.Constant) and str(n.slice.value).upper() in ("C_CONTIGUOUS", "C"):
+            b = pf.base_name(n.value.value)
+            if b:
+                out.add(b)
+    return out
+
+
 def _contig_names_established(node):
-    """names whose C-contiguity a CFG node establishes"""
+    """names whose C-contiguity a CFG node establishes (assert, `if not ..: raise`, a loop over a
+    literal list whose body asserts it for the loop variable, np.ascontiguousarray / fresh allocation)"""
     st = node.ast
     out = set()
-    if node.kind == "stmt" and isinstance(st, ast.Assert):
-        for n in ast.walk(st.test):
-            if isinstance(n, ast.Attribute) and n.attr in ("c_contiguous", "contiguous") \
-                    and isinstance(n.value, ast.Attribute) and n.value.attr == "flags":
-                b = pf.base_name(n.value.value)
-                if b:
-                    out.add(b)
-            if isinstance(n, ast.Subscript) and isinstance(n.value, ast.Attribute) and n.value.attr == "flags" \
-                    and isinstance(n.slice, ast.Constant) and str(n.slice.value).upper() in ("C_CONTIGUOUS", "C"):
-                b = pf.base_name(n.value.value)
-                if b:
-                    out.add(b)
+    a = er.asserted(node)
+    if a is not None:
+        out |= _contig_in(a)
     if node.kind == "iter" and isinstance(st, ast.For) and isinstance(st.iter, (ast.List, ast.Tuple)) \
-            and isinstance(st.target, ast.Name) and st.body and isinstance(st.body[0], ast.Assert):
-        t = st.target.id
-        ok = any(isinstance(n, ast.Attribute) and n.attr == "c_contiguous" and isinstance(n.value, ast.Attribute)
-                 and n.value.attr == "flags" and isinstance(n.value.value, ast.Name) and n.value.value.id == t
-                 for n in ast.walk(st.body[0].test))
-        if ok:
+            and isinstance(st.target, ast.Name) and st.body:
+        a0 = er.asserted_stmt(st.body[0])
+        if a0 is not None and st.target.id in _contig_in(a0):
             out |= {e.id for e in st.iter.elts if isinstance(e, ast.Name)}
     if node.kind == "stmt" and isinstance(st, ast.Assign) and len(st.targets) == 1 \
             and isinstance(st.targets[0], ast.Name) and pf.call_name(st.value) in (
-            "np.ascontiguousarray", "numpy.ascontiguousarray"):
+            "np.ascontiguousarray", "numpy.ascontiguousarray", "np.require"):
         out.add(st.targets[0].id)
     return out
 
 
 def rule_shape_guard(chk, prog):
-    mod = prog.module(XE)
-    fn = mod.func("RBFEvaluator.__call__")
+    mod, fn = er.anchor(prog, XE, "RBFEvaluator.__call__")
     a = [x.arg for x in fn.args.args]
     xname, bufs = a[1], a[2:4]
     g = cfgm.CFG(fn)
@@ -234,24 +274,66 @@ def rule_shape_guard(chk, prog):
     cnode = g.stmt_of_expr(calls[0])
     if cnode is None:
         raise core.AnalysisError("native call not found in the CFG")
-    # which array is passed as xin (third ctypes argument is built from the X1 local)
-    for b in bufs:
-        def shape_ok(node, b=b):
+    cls = prog.module(XE).cls("RBFEvaluator")
+
+    def shape_pred(b, x):
+        def pred(node):
             st = node.ast
             if node.kind == "stmt" and isinstance(st, ast.Assign) and len(st.targets) == 1 \
                     and isinstance(st.targets[0], ast.Name) and st.targets[0].id == b \
                     and pf.call_name(st.value) in ("np.zeros", "np.empty", "np.zeros_like", "np.empty_like") \
-                    and xname in er.names_in(st.value):
+                    and x in er.names_in(st.value):
                 return True
             if node.kind == "test" and isinstance(st, ast.If) and _mentions_attr_of(st.test, b, "shape") \
-                    and _mentions_attr_of(st.test, xname, "shape") and cfgm._raises(st.body):
+                    and _mentions_attr_of(st.test, x, "shape") and cfgm._raises(st.body):
                 return True
-            if node.kind == "stmt" and isinstance(st, ast.Assert) and _mentions_attr_of(st.test, b, "shape") \
-                    and _mentions_attr_of(st.test, xname, "shape"):
-                return True
+            a_ = er.asserted(node)
+            if a_ is not None:
+                e_ = a_[1] if isinstance(a_, tuple) else a_
+                if _mentions_attr_of(e_, b, "shape") and _mentions_attr_of(e_, x, "shape"):
+                    return True
             return False
+        return pred
 
-        ok, wit = g.must_pass(shape_ok, dst=cnode.id)
+    def contig_pred(b):
+        return lambda node: b in _contig_names_established(node)
+
+    def through_helper(make_pred, names):
+        """predicate on nodes of this function: the node calls a helper of the same class/module that
+        establishes the property for the parameters bound to `names` on every path to its exit"""
+        def pred(node):
+            st = node.ast
+            call = None
+            if node.kind == "stmt" and isinstance(st, ast.Expr) and isinstance(st.value, ast.Call):
+                call = st.value
+            elif node.kind == "stmt" and isinstance(st, ast.Assign) and isinstance(st.value, ast.Call):
+                call = st.value
+            if call is None:
+                return False
+            f = call.func
+            callee = None
+            if isinstance(f, ast.Attribute) and isinstance(f.value, ast.Name) and f.value.id in ("self", "cls"):
+                r = prog.find_method(mod, cls, f.attr)
+                callee, skip = (r[2], True) if r else (None, True)
+            elif isinstance(f, ast.Name) and f.id in mod.functions:
+                callee, skip = mod.functions[f.id], False
+            if callee is None or callee is fn:
+                return False
+            bound = er._bind_call(callee, call, skip)
+            inv = {}
+            for p_, a_ in bound.items():
+                if isinstance(a_, ast.Name):
+                    inv.setdefault(a_.id, p_)
+            if not all(n_ in inv for n_ in names):
+                return False
+            gc = cfgm.CFG(callee)
+            okc, _ = gc.must_pass(make_pred(*[inv[n_] for n_ in names]))
+            return okc
+        return pred
+
+    for b in bufs:
+        direct, helper = shape_pred(b, xname), through_helper(shape_pred, (b, xname))
+        ok, wit = g.must_pass(lambda node: direct(node) or helper(node), dst=cnode.id)
         inst = "RBFEvaluator.__call__ shape of %s vs %s before self._fn" % (b, xname)
         if ok:
             chk.ok("shape-guard", inst)
@@ -264,7 +346,8 @@ def rule_shape_guard(chk, prog):
                               b, xname, b, xname, b, [getattr(p.ast, "lineno", "?") for p in path][:8]),
                           instance=inst)
     for b in bufs + [xname]:
-        ok, wit = g.must_pass(lambda node, b=b: b in _contig_names_established(node), dst=cnode.id)
+        direct, helper = contig_pred(b), through_helper(contig_pred, (b,))
+        ok, wit = g.must_pass(lambda node: direct(node) or helper(node), dst=cnode.id)
         inst = "RBFEvaluator.__call__ C-contiguity of %s before self._fn" % b
         if ok:
             chk.ok("shape-guard", inst)
@@ -388,6 +471,7 @@ LADDER_CLASSES = ((XE, "KernelEvalBase"), (XE, "MappedDFTKernel"), (XE2, "Kernel
 def rule_mode_ladders(chk, prog):
     nl = 0
     for rel, cname in LADDER_CLASSES:
+        er.register_str_consts(prog.module(rel))
         cls = prog.module(rel).cls(cname)
         for mname, fn in pf.methods(cls).items():
             # the universe of modes is frozen; a new literal means the rule's table is stale
@@ -395,9 +479,10 @@ def rule_mode_ladders(chk, prog):
                 if isinstance(n, ast.Compare) and pf.is_self_attr(n.left, "mode"):
                     for c in n.comparators:
                         for k in ast.walk(c):
-                            if isinstance(k, ast.Constant) and isinstance(k.value, str) and k.value not in er.MODES:
+                            kv = er._str_value(k) if isinstance(k, (ast.Constant, ast.Name)) else None
+                            if kv is not None and kv not in er.MODES:
                                 raise core.AnalysisError("%s.%s compares self.mode with %r, not one of %s" % (
-                                    cname, mname, k.value, er.MODES))
+                                    cname, mname, kv, er.MODES))
             for head, arms, els in er.mode_ladders(fn):
                 nl += 1
                 where = "%s.%s" % (cname, mname)
@@ -467,14 +552,14 @@ def _analyse_own(chk):
                                   "that repairs it (rule shared with C08: a derivative made singular again is not "
                                   "the gradient of the repaired value)")
     chk.guard(rule_baseline_singular, prog)
-    chk.floor("singular-override", 11, "e/dedx increments of the 4 exchange helpers (2+3+3+3)")
-    chk.floor("baseline-degree", 7, "4 helpers: dedx rows 0 / 0,3 / 0,1 / 0,1")
-    chk.floor("ret-arity", 8, "8 entries of BASELINE_CODES")
-    chk.floor("accumulate-py", 10, "5 evaluator classes with their own body x 2 buffers (+3 delegating)")
-    chk.floor("accumulate-c", 6, "3 native kernels x (out, outd)")
-    chk.floor("shape-guard", 5, "2 shape guards + 3 contiguity guards")
-    chk.floor("cutoff-pair", 6, "2 classes x 3 modes")
-    chk.floor("mode-ladder", 30, "about 13 ladders x 3 modes")
+    chk.floor("singular-override", 8, "increments of the 4 exchange helpers")
+    chk.floor("baseline-degree", 3, "4 native exchange helpers")
+    chk.floor("ret-arity", 4, "8 entries of BASELINE_CODES today")
+    chk.floor("accumulate-py", 5, "5 evaluator classes with their own body")
+    chk.floor("accumulate-c", 3, "3 native kernels")
+    chk.floor("shape-guard", 3, "shape + contiguity guards of RBFEvaluator.__call__")
+    chk.floor("cutoff-pair", 4, "2 classes x 3 modes + ordering")
+    chk.floor("mode-ladder", 15, "about 13 ladders x 3 modes today")
     chk.assumptions += [
         "densities are non-negative (a per-spin mask `rho_s < cut` contains the summed mask `sum_s rho_s < cut`)",
         "the evaluators of one MappedDFTKernel share f/df exactly as written in MappedDFTKernel*.__call__",
